@@ -1,27 +1,744 @@
-//! C05 — not built yet (stub so that the binary links; `./check C05` reports INFRA until replaced).
+//! C05 — blob, enum, tuple, loop and entry-point shape rules are enforced (planted-fault search).
+//!
+//! A case is a generated well-typed base program + generated blob/enum declarations (1-6 fields/variants,
+//! scalar/tuple/list types, optionally one type parameter) + ONE planted violation of one of the rules at a
+//! generated placement (statement site, expression site, imported module, or — for the entry-point rules —
+//! the whole program). The same choices are rendered twice: as the violation and as its legal twin.
+//! Oracle: base accepted (else discard), twin accepted (else discard) and its Lua loads, violation rejected
+//! with >= 1 error and zero bytes written.
+use crate::common::{render, shrink_step, ProgCase};
 use arbitrary::Unstructured;
-use vcore::{Check, Labels, Plan, Tier, Verdict};
+use serde::{Deserialize, Serialize};
+use std::collections::BTreeMap;
+use syltmodel::ast::*;
+use syltmodel::gen::{Gen, GenCfg};
+use syltmodel::plant::{self, Ctx, Placement};
+use syltmodel::print::Plan as SurfacePlan;
+use vcore::{compile, Check, Labels, Outcome, Plan, Project, Stats, Step, Tape, Tier, Verdict};
 
-pub struct Stub;
-pub const CHECK: Stub = Stub;
-pub fn plan(_t: Tier) -> Plan {
-    Plan::new(1, 16)
+#[path = "c05_cat.rs"]
+mod cat;
+use cat::{core_is_expr, render_entry, site_literal, BlobD, Decls, EnumD, FTy, Kind, Spec, ALL_KINDS};
+
+pub struct C05;
+pub const CHECK: C05 = C05;
+pub fn plan(t: Tier) -> Plan {
+    Plan::new(t.pick(4_000, 80_000), t.pick(3000, 4200))
 }
-impl Check for Stub {
-    type Case = u8;
+
+const MARK: &str = "@@C05@@";
+const LIB_MAIN: &str = "use lib\nstart :: fn do\n    lib.start()\nend\n";
+
+#[derive(Clone, Debug, Serialize, Deserialize)]
+pub struct Place {
+    pub placement: String,
+    pub closure_depth: usize,
+    pub in_pure: bool,
+    pub in_loop: bool,
+    pub in_outer_loop_only: bool,
+    /// start | used-fn | unused-fn | global-init | program
+    pub fn_use: String,
+}
+
+#[derive(Clone, Serialize, Deserialize)]
+pub struct Case {
+    /// the base program; for the site kinds it contains the marker (`Stmt::Raw` / `EKind::Raw`)
+    pub prog: Program,
+    pub spec: Spec,
+    /// the planted program is an imported module (`/p/lib.sy`), main only calls `lib.start()`
+    pub lib: bool,
+    pub place: Place,
+    /// the known-finding avoidance switch was on when the case was generated
+    pub avoid: bool,
+    /// the violating source, for human readers of replay files (re-rendered on evaluation)
+    #[serde(default)]
+    pub source: String,
+}
+
+// ------------------------------------------------------------------------------------------------ generation
+
+const FIELD_NAMES: &[&str] = &["a", "b", "c", "x", "y", "id", "val", "len", "pos", "name", "w", "h", "kind", "tag", "n", "k"];
+const VARIANT_NAMES: &[&str] = &["Zaa", "Zab", "Zok", "Zerr", "Zlo", "Zhi", "Zmid", "Znone", "Zsome", "Zleaf"];
+
+fn scalar(t: &mut Tape) -> Ty {
+    match t.weighted(&[30, 15, 15, 12]) {
+        0 => Ty::Int,
+        1 => Ty::Float,
+        2 => Ty::Str,
+        _ => Ty::Bool,
+    }
+}
+
+fn small_tuple(t: &mut Tape) -> Ty {
+    let n = 1 + t.below(3);
+    Ty::Tuple((0..n).map(|_| scalar(t)).collect())
+}
+
+fn field_ty(t: &mut Tape) -> Ty {
+    match t.weighted(&[60, 20, 12, 8]) {
+        0 => scalar(t),
+        1 => small_tuple(t),
+        2 => Ty::List(Box::new(scalar(t))),
+        _ => Ty::Tuple(vec![Ty::Tuple(vec![scalar(t), scalar(t)]), scalar(t)]),
+    }
+}
+
+fn pick_names(t: &mut Tape, pool: &[&str], n: usize) -> Vec<String> {
+    let mut rest: Vec<&str> = pool.to_vec();
+    let mut out = Vec::new();
+    for _ in 0..n.min(pool.len()) {
+        let i = t.below(rest.len());
+        out.push(rest.remove(i).to_string());
+    }
+    out
+}
+
+fn gen_decls(t: &mut Tape, kind: Kind) -> Decls {
+    let force_generic = kind == Kind::IndexGenericField;
+    // blob 1
+    let nf = 1 + t.below(6);
+    let generic = t.chance(2, 5) || force_generic;
+    let names = pick_names(t, FIELD_NAMES, nf);
+    let mut fields: Vec<(String, FTy)> = names.into_iter().map(|n| (n, FTy::T(field_ty(t)))).collect();
+    if generic {
+        let i = t.below(fields.len());
+        fields[i].1 = FTy::Param;
+        if fields.len() > 1 && t.chance(1, 4) {
+            let j = t.below(fields.len());
+            fields[j].1 = FTy::Param;
+        }
+    }
+    let blob = BlobD { name: "Zb".into(), generic, fields, emit: true, multiline: t.chance(1, 3) };
+    // blob 2: always has `zq`, which blob 1 never has
+    let nf2 = t.below(3);
+    let mut fields2: Vec<(String, FTy)> = pick_names(t, FIELD_NAMES, nf2).into_iter().map(|n| (n, FTy::T(scalar(t)))).collect();
+    let at = t.below(fields2.len() + 1);
+    fields2.insert(at, ("zq".to_string(), FTy::T(Ty::Int)));
+    let blob2 = BlobD { name: "Zc".into(), generic: false, fields: fields2, emit: true, multiline: false };
+    // enum
+    let mut nv = 1 + t.below(6);
+    if matches!(kind, Kind::TotalMissing | Kind::TotalMissingExtra) && nv < 2 {
+        nv = 2;
+    }
+    let egeneric = t.chance(2, 5);
+    let vnames = pick_names(t, VARIANT_NAMES, nv);
+    let mut variants: Vec<(String, Option<FTy>)> =
+        vnames.into_iter().map(|n| (n, if t.chance(3, 5) { Some(FTy::T(field_ty(t))) } else { None })).collect();
+    if egeneric {
+        let i = t.below(variants.len());
+        variants[i].1 = Some(FTy::Param);
+    }
+    let en = EnumD { name: "Ze".into(), generic: egeneric, variants, emit: true };
+    let targ = if force_generic || t.chance(2, 5) { small_tuple(t) } else { scalar(t) };
+    Decls { blob, blob2, en, targ, other_variant: "Just".into() }
+}
+
+fn plain_ty(t: &Ty, depth: usize) -> bool {
+    match t {
+        Ty::Int | Ty::Float | Ty::Str | Ty::Bool => true,
+        Ty::Tuple(ts) => depth < 3 && !ts.is_empty() && ts.iter().all(|x| plain_ty(x, depth + 1)),
+        Ty::List(x) => depth < 3 && plain_ty(x, depth + 1),
+        _ => false,
+    }
+}
+
+fn stmt_site_ok(kind: Kind, c: &Ctx) -> bool {
+    match kind {
+        Kind::BreakNoLoop | Kind::ContinueNoLoop => !c.in_loop && !c.in_outer_loop_only,
+        Kind::ExitInClosureBaseLoop => c.in_outer_loop_only && !c.in_loop,
+        Kind::ClosureExitInBaseLoop => c.in_loop,
+        k if k.impure_only() => !c.in_pure,
+        _ => true,
+    }
+}
+
+fn place_of(p: &Program, c: &Ctx) -> Place {
+    let fn_use = if c.placement == Placement::GlobalInit || !matches!(p.globals.iter().find(|g| g.var == c.global).map(|g| &g.value.kind), Some(EKind::Lambda(_))) {
+        "global-init"
+    } else if c.global_is_start {
+        "start"
+    } else if plant::global_is_used(p, c.global) {
+        "used-fn"
+    } else {
+        "unused-fn"
+    };
+    Place {
+        placement: format!("{:?}", c.placement),
+        closure_depth: c.closure_depth,
+        in_pure: c.in_pure,
+        in_loop: c.in_loop,
+        in_outer_loop_only: c.in_outer_loop_only,
+        fn_use: fn_use.to_string(),
+    }
+}
+
+fn scope_tuple(p: &Program, c: &Ctx) -> Option<(String, usize)> {
+    for v in c.scope.iter().rev() {
+        let info = p.var(*v);
+        if info.kind == VarKind::SelfVar || info.mutable {
+            continue;
+        }
+        if let Ty::Tuple(ts) = &info.ty {
+            if !ts.is_empty() {
+                return Some((info.name.clone(), ts.len()));
+            }
+        }
+    }
+    None
+}
+
+/// pick a site: first a placement class (uniformly among the classes present), then a site of that class
+fn pick_site<T>(sites: &[(usize, T)], class_of: impl Fn(&T) -> Placement, class_sel: u8, site_sel: usize) -> Option<usize> {
+    if sites.is_empty() {
+        return None;
+    }
+    let mut classes: Vec<Placement> = Vec::new();
+    for (_, s) in sites {
+        let c = class_of(s);
+        if !classes.contains(&c) {
+            classes.push(c);
+        }
+    }
+    classes.sort();
+    let cls = classes[(class_sel as usize * classes.len()) >> 8];
+    let of_class: Vec<usize> = sites.iter().filter(|(_, s)| class_of(s) == cls).map(|(i, _)| *i).collect();
+    Some(of_class[(site_sel * of_class.len()) >> 16])
+}
+
+impl C05 {
+    fn gen_case(&self, t: &mut Tape, tier: Tier) -> Case {
+        // 20 % of the budget runs with the known-finding avoidance switch off (closure-in-loop kinds)
+        let raw = t.chance(1, 5) && std::env::var("C05_AVOID_ALL").is_err();
+        let only = std::env::var("C05_ONLY").ok();
+        let kinds: Vec<Kind> = ALL_KINDS
+            .iter()
+            .copied()
+            .filter(|k| raw || !k.closure_in_loop())
+            .filter(|k| only.as_ref().map(|o| o.split(',').any(|p| k.name().starts_with(p))).unwrap_or(true))
+            .collect();
+        let mut kind = if kinds.is_empty() { Kind::MissingField } else { *t.pick(&kinds) };
+        let mut bytes = vec![0u8; 16];
+        for b in bytes.iter_mut() {
+            *b = t.byte();
+        }
+        let want_expr = t.chance(1, 3);
+        let lib = t.chance(1, 6);
+        let class_sel = t.byte();
+        let site_sel = ((t.byte() as usize) << 8) | t.byte() as usize;
+        let use_base_blob = t.chance(1, 5);
+        let use_base_enum = t.chance(1, 5);
+        let mut decls = gen_decls(t, kind);
+        let base = Gen::new(t, GenCfg::core(tier == Tier::Thorough)).program();
+
+        // sometimes the target declaration is one of the generated program's own blobs / enums
+        if use_base_blob && kind != Kind::IndexGenericField {
+            if let Some(b) = base.blobs.iter().find(|b| !b.fields.is_empty() && b.fields.iter().all(|f| plain_ty(&f.ty, 0))) {
+                decls.blob = BlobD {
+                    name: b.name.clone(),
+                    generic: false,
+                    fields: b.fields.iter().map(|f| (f.name.clone(), FTy::T(f.ty.clone()))).collect(),
+                    emit: false,
+                    multiline: false,
+                };
+            }
+        }
+        if let Some(e) = base.enums.first() {
+            decls.other_variant = e.variants[0].name.clone();
+        }
+        if use_base_enum {
+            let need = if matches!(kind, Kind::TotalMissing | Kind::TotalMissingExtra) { 2 } else { 1 };
+            if let Some(e) = base
+                .enums
+                .iter()
+                .find(|e| e.variants.len() >= need && e.variants.iter().all(|v| v.payload.as_ref().map(|t| plain_ty(t, 0)).unwrap_or(true)))
+            {
+                decls.en = EnumD {
+                    name: e.name.clone(),
+                    generic: false,
+                    variants: e.variants.iter().map(|v| (v.name.clone(), v.payload.clone().map(FTy::T))).collect(),
+                    emit: false,
+                };
+                decls.other_variant = "Just".into();
+            }
+        }
+
+        let mut spec = Spec { kind, bytes, decls, pure: false, expr_site: None, scope_tuple: None };
+        if kind.is_entry() {
+            let place = Place { placement: "Program".into(), closure_depth: 0, in_pure: false, in_loop: false, in_outer_loop_only: false, fn_use: "program".into() };
+            let mut case = Case { prog: base, spec, lib: false, place, avoid: !raw, source: String::new() };
+            case.source = build(&case).map(|b| b.bad.files.values().cloned().collect::<Vec<_>>().join("\n// ---- next file ----\n")).unwrap_or_default();
+            return case;
+        }
+
+        let (ss, es) = plant::sites(&base);
+        // kinds that need a loop context the program does not offer fall back to the planted loop
+        let mut stmt_sites: Vec<(usize, &plant::StmtSite)> = ss.iter().enumerate().filter(|(_, s)| stmt_site_ok(kind, &s.ctx)).collect();
+        if stmt_sites.is_empty() {
+            kind = if kind.closure_in_loop() { Kind::ExitInOwnClosure } else { Kind::MissingField };
+            spec.kind = kind;
+            stmt_sites = ss.iter().enumerate().filter(|(_, s)| stmt_site_ok(kind, &s.ctx)).collect();
+        }
+        let expr_sites: Vec<(usize, &plant::ExprSite)> = if want_expr && !kind.is_loop() && !kind.impure_only() && core_is_expr(&spec) {
+            es.iter().enumerate().filter(|(_, s)| plain_ty(&s.ty, 0)).collect()
+        } else {
+            Vec::new()
+        };
+        let (prog, place) = if let Some(i) = pick_site(&expr_sites, |s| s.ctx.placement, class_sel, site_sel) {
+            let s = &es[i];
+            spec.pure = s.ctx.in_pure;
+            spec.expr_site = Some(s.ty.clone());
+            spec.scope_tuple = scope_tuple(&base, &s.ctx);
+            (plant::replace_expr(&base, i, Expr { ty: s.ty.clone(), kind: EKind::Raw(MARK.to_string()) }), place_of(&base, &s.ctx))
+        } else if let Some(i) = pick_site(&stmt_sites, |s| s.ctx.placement, class_sel, site_sel) {
+            let s = &ss[i];
+            spec.pure = s.ctx.in_pure;
+            spec.scope_tuple = scope_tuple(&base, &s.ctx);
+            (plant::insert_stmt(&base, i, Stmt::Raw(MARK.to_string())), place_of(&base, &s.ctx))
+        } else {
+            // a program without any statement site cannot happen (start has a body); keep the generator total
+            spec.kind = Kind::NoStart;
+            let place = Place { placement: "Program".into(), closure_depth: 0, in_pure: false, in_loop: false, in_outer_loop_only: false, fn_use: "program".into() };
+            (base, place)
+        };
+        let mut case = Case { prog, spec, lib, place, avoid: !raw, source: String::new() };
+        case.source = build(&case).map(|b| b.bad.files.values().cloned().collect::<Vec<_>>().join("\n// ---- next file ----\n")).unwrap_or_default();
+        case
+    }
+}
+
+// ------------------------------------------------------------------------------------------------ building
+
+pub struct Built {
+    pub base: Project,
+    pub ok: Project,
+    pub bad: Project,
+    pub deferred: bool,
+    pub own_closure: bool,
+    pub form: String,
+}
+
+fn project(text: String, lib: bool) -> Project {
+    if lib {
+        let mut files = BTreeMap::new();
+        files.insert("/p/lib.sy".to_string(), text);
+        files.insert("/p/main.sy".to_string(), LIB_MAIN.to_string());
+        Project { files, main: "/p/main.sy".into(), std: true, require: None }
+    } else {
+        Project::single(text)
+    }
+}
+
+/// replace the marker line by `lines` (each indented like the marker line); None = marker not found
+fn splice_stmt(text: &str, lines: Option<&str>) -> Option<String> {
+    let mut out = String::with_capacity(text.len() + 256);
+    let mut found = 0;
+    for l in text.lines() {
+        if l.trim() == MARK {
+            found += 1;
+            if let Some(ls) = lines {
+                let ind = &l[..l.len() - l.trim_start().len()];
+                for x in ls.lines() {
+                    out.push_str(ind);
+                    out.push_str(x);
+                    out.push('\n');
+                }
+            }
+        } else {
+            out.push_str(l);
+            out.push('\n');
+        }
+    }
+    if found == 1 {
+        Some(out)
+    } else {
+        None
+    }
+}
+
+fn splice_expr(text: &str, x: &str) -> Option<String> {
+    if text.matches(MARK).count() == 1 {
+        Some(text.replace(MARK, x))
+    } else {
+        None
+    }
+}
+
+pub fn build(case: &Case) -> Result<Built, String> {
+    let plan = SurfacePlan::default();
+    let spec = &case.spec;
+    if spec.kind.is_entry() {
+        let original = render(&case.prog, &plan).text;
+        let start = case.prog.globals.iter().map(|g| g.var).find(|v| case.prog.var(*v).name == "start").ok_or("no-start-in-base")?;
+        let mut names = vec![String::new(); case.prog.vars.len()];
+        names[start as usize] = "zzstart".to_string();
+        let mut renamed_plan = plan.clone();
+        renamed_plan.names = Some(names);
+        let renamed = render(&case.prog, &renamed_plan).text;
+        let mk = |good: bool| -> (Project, String) {
+            let e = render_entry(spec, good);
+            if e.two_file {
+                let mut files = BTreeMap::new();
+                files.insert("/p/lib.sy".to_string(), original.clone());
+                files.insert("/p/main.sy".to_string(), e.text);
+                (Project { files, main: "/p/main.sy".into(), std: true, require: None }, e.form)
+            } else {
+                (Project::single(format!("{}{}", renamed, e.text)), e.form)
+            }
+        };
+        let (ok, _) = mk(true);
+        let (bad, form) = mk(false);
+        return Ok(Built { base: Project::single(original), ok, bad, deferred: false, own_closure: false, form });
+    }
+    let text = render(&case.prog, &plan).text;
+    let good = cat::render(spec, true);
+    let evil = cat::render(spec, false);
+    let (base, ok, bad) = match &spec.expr_site {
+        None => (
+            splice_stmt(&text, None).ok_or("marker-lost")?,
+            splice_stmt(&text, Some(&good.site)).ok_or("marker-lost")?,
+            splice_stmt(&text, Some(&evil.site)).ok_or("marker-lost")?,
+        ),
+        Some(_) => (
+            splice_expr(&text, &site_literal(spec)).ok_or("marker-lost")?,
+            splice_expr(&text, &good.site).ok_or("marker-lost")?,
+            splice_expr(&text, &evil.site).ok_or("marker-lost")?,
+        ),
+    };
+    Ok(Built {
+        base: project(base, case.lib),
+        ok: project(format!("{}{}", good.prelude, ok), case.lib),
+        bad: project(format!("{}{}", evil.prelude, bad), case.lib),
+        deferred: evil.deferred,
+        own_closure: evil.own_closure,
+        form: evil.form,
+    })
+}
+
+fn all_sources(p: &Project) -> String {
+    if p.files.len() == 1 {
+        return p.main_src().to_string();
+    }
+    p.files.iter().map(|(k, v)| format!("// ---- {} ----\n{}", k, v)).collect::<Vec<_>>().join("\n")
+}
+
+fn dump(what: &str, kind: Kind, p: &Project, out: &Outcome) {
+    if let Ok(d) = std::env::var("C05_DUMP") {
+        let _ = std::fs::create_dir_all(&d);
+        let src = all_sources(p);
+        let _ = std::fs::write(format!("{}/{}_{}_{:x}.sy", d, what, kind.name(), vcore::hash64(&src)), format!("// {}\n{}", out.short(), src));
+    }
+}
+
+// ------------------------------------------------------------------------------------------------ the check
+
+impl Check for C05 {
+    type Case = Case;
     fn id(&self) -> &'static str {
         "C05"
     }
-    fn generate(&self, _u: &mut Unstructured, _tier: Tier) -> Option<u8> {
-        None
+
+    fn generate(&self, u: &mut Unstructured, tier: Tier) -> Option<Case> {
+        let mut t = Tape::new(u);
+        Some(self.gen_case(&mut t, tier))
     }
-    fn evaluate(&self, _case: &u8, _labels: &mut Labels) -> Verdict {
-        Verdict::Discard("stub".into())
+
+    fn evaluate(&self, case: &Case, labels: &mut Labels) -> Verdict {
+        let kind = case.spec.kind;
+        let b = match build(case) {
+            Ok(b) => b,
+            Err(e) => return Verdict::Discard(e),
+        };
+        let placement = if case.lib { format!("{}+lib", case.place.placement) } else { case.place.placement.clone() };
+        labels.add(format!("kind:{}", kind.name()));
+        labels.add(if case.avoid { "avoid:on" } else { "avoid:off" });
+
+        // 1. the unplanted program must be accepted and loadable (otherwise nothing is attributable to the plant)
+        let base_out = compile(&b.base);
+        let base_lua = match &base_out {
+            Outcome::Accepted(l) => l,
+            Outcome::Rejected { .. } => {
+                dump("base", kind, &b.base, &base_out);
+                return Verdict::Discard("base-rejected".into());
+            }
+            Outcome::Panicked { .. } => return Verdict::Discard("base-compiler-panicked".into()),
+        };
+        if minilua::load(base_lua).is_err() {
+            return Verdict::Discard("base-unloadable".into());
+        }
+
+        // 2. the legal twin: accepted (else the planted construct is not the only difference) and its Lua loads
+        let ok_out = compile(&b.ok);
+        match &ok_out {
+            Outcome::Accepted(lua) => match minilua::load(lua) {
+                Ok(chunk) => {
+                    let st = minilua::load_stats(&chunk);
+                    if st.max_register_estimate >= 230 || st.max_c_levels >= 185 {
+                        return Verdict::Discard("twin-load-grey-zone".into());
+                    }
+                }
+                Err(e) => {
+                    return Verdict::Violation {
+                        signature: format!("C05/twin-load/{}/{}", e.class, kind.group()),
+                        detail: format!(
+                            "the legal twin of a planted `{}` violation compiles, but the emitted chunk does not load: {} (chunk line {}); the unplanted \
+                             program loads\nplacement: {} form: {}\n--- source (legal twin) ---\n{}",
+                            kind.name(),
+                            e.msg,
+                            e.line,
+                            placement,
+                            b.form,
+                            all_sources(&b.ok)
+                        ),
+                    };
+                }
+            },
+            Outcome::Rejected { errors, .. } => {
+                labels.add(format!("twin-rejected:{}:{}", kind.name(), errors.first().map(|e| e.sub.clone()).unwrap_or_default()));
+                dump("twin", kind, &b.ok, &ok_out);
+                return Verdict::Discard("twin-rejected".into());
+            }
+            Outcome::Panicked { .. } => return Verdict::Discard("twin-compiler-panicked".into()),
+        }
+
+        // classification of the decided case
+        labels.add(format!("decided:{}", kind.name()));
+        labels.add(format!("group:{}", kind.group()));
+        labels.add(format!("cell:{}:{}", kind.name(), placement));
+        labels.add(format!("placement:{}", placement));
+        labels.add(format!("form:{}:{}", kind.name(), b.form));
+        labels.add(format!("fn-use:{}", case.place.fn_use));
+        labels.add(format!("shape:{}", if kind.is_entry() { "program" } else if case.spec.expr_site.is_some() { "expression" } else { "statement" }));
+        labels.add(format!("closure-depth:{}", case.place.closure_depth.min(3)));
+        if case.place.in_pure {
+            labels.add("site-in-pure-fn");
+        }
+        if case.place.in_loop {
+            labels.add("site-in-loop");
+        }
+        if case.lib {
+            labels.add("imported-module");
+        }
+        let d = &case.spec.decls;
+        if (d.blob.emit && d.blob.generic) || (d.en.emit && d.en.generic) {
+            labels.add("generic-declaration");
+        }
+        let target_generic = match kind.group() {
+            "unknown-variant" | "non-total-case" => Some(d.en.generic),
+            "blob-missing-field" | "blob-unknown-field" | "unknown-field-access" | "externblob-instance" => Some(d.blob.generic),
+            _ => None,
+        };
+        if target_generic == Some(true) {
+            labels.add(format!("generic-target:{}", kind.group()));
+        }
+        if !d.blob.emit || !d.en.emit {
+            labels.add("target-declared-by-generated-program");
+        }
+        if b.deferred {
+            labels.add("deferred-constraint");
+        }
+        if b.own_closure {
+            labels.add("planted-closure");
+        }
+        let nontrivial = b.deferred || b.own_closure || case.place.closure_depth >= 1;
+
+        // 3. the violation must be rejected, with an error, without output
+        let bad_out = compile(&b.bad);
+        match &bad_out {
+            Outcome::Rejected { errors, bytes_written } => {
+                if errors.is_empty() {
+                    return Verdict::Violation {
+                        signature: "C05/rejected-without-error".into(),
+                        detail: format!("compile returned Err with an empty error list\n--- source ---\n{}", all_sources(&b.bad)),
+                    };
+                }
+                if *bytes_written != 0 {
+                    return Verdict::Violation {
+                        signature: format!("C05/output-on-rejection/{}", kind.group()),
+                        detail: format!(
+                            "the program was rejected ({}) but {} bytes of Lua had been written\n--- source ---\n{}",
+                            bad_out.short(),
+                            bytes_written,
+                            all_sources(&b.bad)
+                        ),
+                    };
+                }
+                let e = &errors[0];
+                let reason = if e.kind == "Type" { e.sub.clone() } else { e.kind.clone() };
+                labels.add(format!("reject:{}:{}", kind.group(), reason));
+                if !kind.expected_reasons().contains(&reason.as_str()) {
+                    labels.add("rejected-for-another-reason");
+                    labels.add(format!("other-reason:{}:{}", kind.name(), reason));
+                    dump("reason", kind, &b.bad, &bad_out);
+                    return Verdict::Pass { nontrivial: false };
+                }
+                Verdict::Pass { nontrivial }
+            }
+            Outcome::Accepted(lua) => {
+                let load = match minilua::load(lua) {
+                    Ok(_) => "the emitted chunk loads".to_string(),
+                    Err(e) => format!("the emitted chunk does not load: {} [{}] (chunk line {})", e.msg, e.class, e.line),
+                };
+                Verdict::Violation {
+                    signature: format!("C05/accepted/{}", kind.group()),
+                    detail: format!(
+                        "a program with a planted `{}` violation was accepted ({} bytes of Lua); {}\nplacement: {} (closure depth {}, fn: {}) form: {}\n\
+                         the legal twin is accepted as well, the unplanted program too\n--- source ---\n{}",
+                        kind.name(),
+                        lua.len(),
+                        load,
+                        placement,
+                        case.place.closure_depth,
+                        case.place.fn_use,
+                        b.form,
+                        all_sources(&b.bad)
+                    ),
+                }
+            }
+            Outcome::Panicked { message, location, .. } => Verdict::Violation {
+                signature: format!("C05/panic/{}", location),
+                detail: format!(
+                    "the compiler panicked instead of rejecting a planted `{}` violation: {} at {}\n--- source ---\n{}",
+                    kind.name(),
+                    vcore::first_line(message),
+                    location,
+                    all_sources(&b.bad)
+                ),
+            },
+        }
     }
+
+    fn simplify_at(&self, case: &Case, idx: usize) -> Step<Case> {
+        let finish = |mut c: Case| -> Step<Case> {
+            match build(&c) {
+                Ok(b) => {
+                    c.source = all_sources(&b.bad);
+                    Step::Candidate(c)
+                }
+                Err(_) => Step::Skip,
+            }
+        };
+        match idx {
+            0 => {
+                if case.spec.bytes.iter().all(|b| *b == 0) {
+                    return Step::Skip;
+                }
+                let mut c = case.clone();
+                c.spec.bytes = vec![0; c.spec.bytes.len()];
+                finish(c)
+            }
+            1 => {
+                if !case.lib {
+                    return Step::Skip;
+                }
+                let mut c = case.clone();
+                c.lib = false;
+                finish(c)
+            }
+            2 => {
+                // smallest declarations
+                let mut c = case.clone();
+                let d = &mut c.spec.decls;
+                if d.blob.emit && d.blob.fields.len() > 1 {
+                    d.blob.fields.truncate(1);
+                    d.blob.generic = d.blob.fields[0].1 == FTy::Param;
+                } else if d.en.emit && d.en.variants.len() > 2 {
+                    d.en.variants.truncate(2);
+                    d.en.generic = d.en.variants.iter().any(|v| v.1 == Some(FTy::Param));
+                } else {
+                    return Step::Skip;
+                }
+                finish(c)
+            }
+            _ => {
+                let pc = ProgCase { prog: case.prog.clone(), plan: SurfacePlan::default(), source: String::new() };
+                match shrink_step(&pc, idx - 3) {
+                    Step::End => Step::End,
+                    Step::Skip => Step::Skip,
+                    Step::Candidate(q) => {
+                        let mut c = case.clone();
+                        c.prog = q.prog;
+                        finish(c)
+                    }
+                }
+            }
+        }
+    }
+
+    fn sample(&self, case: &Case) -> serde_json::Value {
+        let src = build(case).map(|b| all_sources(&b.bad)).unwrap_or_default();
+        vcore::truncate_value(
+            serde_json::json!({ "kind": case.spec.kind.name(), "placement": case.place.placement, "imported_module": case.lib, "violating_source": src }),
+            2500,
+        )
+    }
+
     fn rule(&self) -> String {
-        "stub".into()
+        "cases: generated well-typed base program (GenAST core profile) + generated declarations `Zb :: blob[(*T)] {..}` (1-6 fields), `Zc :: blob {..}`, \
+         `Ze :: enum[(*T)] .. end` (1-6 variants) with scalar/tuple/list/nested-tuple/type-parameter field and payload types (in 20 % the target is one of \
+         the base program's own blobs/enums) + ONE planted violation out of 38 kinds (blob instantiation with missing / unknown / both fields; unknown field \
+         read directly, through an annotated parameter, a returned value, an unannotated parameter (1 and 2 levels, polymorphic second use), an unannotated \
+         return, a write, a capturing closure; unknown variant constructed / matched; case without else with missing / extra / both arms, the scrutinee being \
+         an annotated or inferred constant, inline, returned, an annotated or an unannotated parameter; tuple index past the end (len, len+1, 255.., 2^32, \
+         i64::MAX) directly, through an unannotated parameter, a returned value, nested, through a type parameter; tuple length mismatch in + - * == != < > \
+         <= >=, nested, through unannotated parameters, annotated definition, assignment (= += -= *=), annotated parameter, annotated return, list elements; \
+         externblob instantiation; break/continue outside any loop, inside a closure inside a loop (closure definition, method of a blob literal, function \
+         literal argument, closure in closure); entry point: no start / only a local or field or similarly named start / start only in the imported file / \
+         start not a function / with parameters / returning a value, also with a proper start in an imported file) at a generated placement: a statement \
+         site (function body, closure, method, if branch, case arm, loop body of the base program; placement class drawn uniformly) optionally wrapped in 1-2 \
+         planted closures / ifs / loops, an expression site (global initialiser, argument, operand, field initialiser, condition, definition value, element, \
+         return value) via `zzsel(<literal>, <violating expression>)`, in the main file or an imported module. Every case is rendered twice from the same \
+         choices: violation and legal twin. oracle: unplanted program accepted and loadable (else discard), twin accepted (else discard) and its Lua loads \
+         in mini-Lua, violation => Rejected with >= 1 error and 0 bytes written. non-trivial = the violation is reached through a deferred constraint \
+         (unannotated parameter / return / type parameter) or sits in a closure (generated or planted); distinct by case hash"
+            .into()
     }
-    fn health(&self, _s: &vcore::Stats) -> Result<(), String> {
-        Err("check not built yet".into())
+
+    fn assumptions(&self) -> Vec<String> {
+        vec![
+            "mini-Lua's loader accepts exactly what lua5.3 accepts on the subset the emitter uses (./check selftest)".into(),
+            "a program whose main file obtains `start` only through `from lib use start` is not counted as a violation (the property's wording is ambiguous there); it is not generated".into(),
+            "`start := fn do end` (mutable) and `start :: pu do end` have type fn -> void and are not violations; not generated as violations".into(),
+        ]
+    }
+
+    fn health(&self, s: &Stats) -> Result<(), String> {
+        if s.evaluations < 1000 || std::env::var("C05_ONLY").is_ok() || std::env::var("C05_AVOID_ALL").is_ok() {
+            return Ok(());
+        }
+        let ev = s.evaluations as f64;
+        for k in ALL_KINDS {
+            let n = s.label(&format!("decided:{}", k.name()));
+            if n < 3 {
+                return Err(format!("violation kind {} was decided only {} times", k.name(), n));
+            }
+        }
+        let discards: u64 = s.discards.values().sum();
+        if discards as f64 > 0.30 * ev {
+            return Err(format!("{} of {} cases discarded: {:?}", discards, s.evaluations, s.discards));
+        }
+        if s.discard("twin-rejected") as f64 > 0.15 * ev {
+            return Err(format!("the legal twin was rejected in {} of {} cases", s.discard("twin-rejected"), s.evaluations));
+        }
+        let decided: u64 = ALL_KINDS.iter().map(|k| s.label(&format!("decided:{}", k.name()))).sum();
+        if (s.label("generic-declaration") as f64) < 0.15 * decided as f64 {
+            return Err(format!("generic declarations in only {} of {} decided cases", s.label("generic-declaration"), decided));
+        }
+        if s.label("rejected-for-another-reason") as f64 > 0.05 * decided as f64 {
+            return Err(format!("{} of {} violations were rejected for a reason other than the planted one", s.label("rejected-for-another-reason"), decided));
+        }
+        for p in ["FnBody", "Closure", "Method", "Branch", "CaseArm", "LoopBody", "Program"] {
+            if (s.label(&format!("placement:{}", p)) as f64) < 0.01 * decided as f64 {
+                return Err(format!("placement {} is (nearly) absent: {} of {}", p, s.label(&format!("placement:{}", p)), decided));
+            }
+        }
+        for l in ["shape:expression", "imported-module", "deferred-constraint", "planted-closure", "site-in-pure-fn"] {
+            if (s.label(l) as f64) < 0.03 * decided as f64 {
+                return Err(format!("class {} is (nearly) absent: {} of {}", l, s.label(l), decided));
+            }
+        }
+        if (s.nontrivial as f64) < 0.2 * ev {
+            return Err(format!("only {} of {} cases are non-trivial", s.nontrivial, s.evaluations));
+        }
+        Ok(())
     }
 }
